@@ -256,6 +256,7 @@ def cases(tier, seed):
     out.append({"k": "extra"})
     for i0 in range(0, n, 22):
         out.append({"k": "sympy", "i0": i0, "i1": min(n, i0 + 22)})
+    out.append({"k": "sympy3"})
     return out
 
 
@@ -307,6 +308,21 @@ def run_case(case, R):
             for i, sp in enumerate(space.twin_sequence()):
                 R.state(("twins", i, cfg))
                 render_and_check(R, sp, f"twin {i} {sp['n']} {sp['t']}", [cfg], SIGNS[:1], ["twins"])
+    elif k == "sympy3":
+        # the sympy round trip over name sets whose numeric and textual orders differ (q2 vs q10), three or four names
+        for names in (("q0", "q2", "q10"), ("q2", "q10"), ("q1", "q9", "q10", "q11"), ("q3", "q12")):
+            for t in space.universe(names, 2, 2, [1, -3])[1::3]:
+                sp = space.scalar_spec(names, t)
+                p, m = build_checked(sp), model_of(sp)
+                R.tr()
+                R.state(("sympy3", names, str(t)))
+                try:
+                    back = numpoly.polynomial(numpoly.to_sympy(p))
+                except Exception as err:  # noqa: BLE001
+                    R.fail("to_sympy", "exception", f"{names} {t}: {type(err).__name__}: {err}", tags=["sympy"])
+                    continue
+                if not isinstance(back, numpoly.ndpoly) or alpha(back) != m or back.shape != ():
+                    R.fail("to_sympy", "wrong-value", f"{names} {t}: polynomial(to_sympy(p)) = {back!r}, p = {p!r}", tags=["sympy"])
     elif k == "sympy":
         for i in range(case["i0"], case["i1"]):
             t = space.U0()[i]
